@@ -65,6 +65,16 @@ fn main() {
                     };
                     run_property(&def, tier, seed, verif_dir())
                 }
+                "shard" => {
+                    // dlv shard <ID> <tier> <phase> <shard>: child of an isolated search phase
+                    if args.len() < 6 {
+                        usage();
+                    }
+                    let tier = if args[3] == "thorough" { Tier::Thorough } else { Tier::Quick };
+                    let seed: u64 = std::env::var("VERIF_SEED").ok().and_then(|s| s.trim().parse::<i128>().ok()).map(|v| v as u64).unwrap_or(1);
+                    let Some(def) = dlv::props::all().into_iter().find(|p| p.id == args[2]) else { return 2 };
+                    dlv::engine::run_shard_process(&def, tier, seed, verif_dir(), &args[4], args[5].parse().unwrap_or(0))
+                }
                 "replay" => {
                     if args.len() < 3 {
                         usage();
